@@ -91,6 +91,11 @@ CHECKS = {
          "For 11 zones (fixed offsets, northern/southern DST, 30-minute DST, midnight transitions, POSIX TZ strings) the schedule function is called on boundary grids, on every (k-th) second within 2 h of every offset change of 2023-2025, on random instants and with absurd multipliers; the result must be strictly in the future, never panic, and equal the calendar model's boundary whenever the zone's offset is constant in between. Histories drive a real rolling appender on a controlled clock and check firing instant, placement of the firing record and rescheduling.",
          "Trusted: calendar.rs (own Gregorian/ISO-week arithmetic), chrono for the UTC offset of a zone at an instant, tzdata of the image (POSIX strings as fallback). Zones outside the list and n > 1000 (except the overflow catalogue) are not explored.",
          "DESIGN.md §4 C16"),
+ "C18": ("exploration",
+         "runtime monitor: bytes captured from child processes whose target stream is a real pty or a pipe under a controlled environment, compared with the statement's policy; all 243 styles and generated highlight patterns through the real AnsiWriter",
+         "The 27 x 2 x 2 x 2 = 216-cell matrix (NO_COLOR / CLICOLOR / CLICOLOR_FORCE x pty-or-pipe x stdout-or-stderr x tty_only) is enumerated completely with a real ConsoleAppender in a child process; the bytes on the target stream and on the other stream must equal the policy's prediction (write or silent, SGR or none, reset after every highlighted group incl. truncated and right-aligned ones). All 243 styles must yield exactly the one well-formed SGR sequence. Random highlight patterns are checked byte for byte through AnsiWriter.",
+         "Trusted: pty allocation via libc (posix_openpt), reference renderer. Windows console path not exercised. 'Set' = present and != \"0\".",
+         "DESIGN.md §4 C18"),
 }
 
 NOT_YET = {}
